@@ -611,6 +611,7 @@ fn merge_type_rules_to_enum(
       variants.push(type_choice_to_variant(tc, comments)?);
     }
   }
+  deduplicate_variant_names(&mut variants);
   Ok(RustTypeDef::Enum {
     name: name.to_string(),
     variants,
@@ -853,6 +854,7 @@ fn type_choices_to_enum(
     let variant = type_choice_to_variant(tc, comments)?;
     variants.push(variant);
   }
+  deduplicate_variant_names(&mut variants);
   Ok(RustTypeDef::Enum {
     name: name.to_string(),
     variants,
@@ -1003,6 +1005,25 @@ fn deduplicate_field_names(fields: &mut [RustField]) {
         field.original_name = unique.clone();
       }
       field.name = unique;
+    }
+  }
+}
+
+/// Give repeated enum variant names a numeric suffix.
+///
+/// Distinct CDDL alternatives can map to the same PascalCase name (`"a" / "A"`,
+/// `"x y" / "x-y"`), which would emit the same variant twice and fail to
+/// compile. A string-literal variant keeps its wire value in `rename`, so only
+/// the Rust-side name changes.
+fn deduplicate_variant_names(variants: &mut [RustEnumVariant]) {
+  let mut seen: std::collections::HashMap<String, usize> = std::collections::HashMap::new();
+
+  for variant in variants.iter_mut() {
+    let count = seen.entry(variant.name.clone()).or_insert(0);
+    *count += 1;
+
+    if *count > 1 {
+      variant.name = format!("{}{}", variant.name, *count - 1);
     }
   }
 }
@@ -1318,6 +1339,7 @@ fn group_to_enum_variants(
       variants.push(variant);
     }
   }
+  deduplicate_variant_names(&mut variants);
   Ok(variants)
 }
 
